@@ -173,6 +173,67 @@ pub fn run(ctx: &'static Ctx) {
             l.fail(ctx, idx, v, || case_json(&s.target, &wire, json!({"seed": s.label, "members": [a.name, b.name], "values": [a.what, b.what]})));
         }
     });
+    // limits do not depend on what other members say: every bounded member at capacity-1 /
+    // capacity / capacity+1 while one other member (any type) takes each of a menu of values
+    {
+        let mut cases: Vec<(usize, Repl, Repl)> = Vec::new();
+        for (si, s) in seeds.iter().enumerate().filter(|(_, s)| s.label.ends_with(":full")) {
+            let sites: Vec<TSite> = treewalk::sites(&s.target.schema(), &s.wire).into_iter().filter(|x| !x.path.is_empty()).collect();
+            let menu = |site: &TSite| -> Vec<(String, V)> {
+                match &site.ty {
+                    Ty::Uint(max) => [0u64, 1, 2, 3, 4, 5, 255, *max].iter().filter(|x| **x <= *max).map(|x| (format!("uint({})", x), V::U(*x))).collect(),
+                    Ty::Enum(vals) => vals.iter().map(|x| (format!("uint({})", x), V::U(*x))).collect(),
+                    Ty::Bool => vec![("true".into(), V::Bool(true)), ("false".into(), V::Bool(false))],
+                    Ty::Int32 => [-8i64, -7, -257, 0, 1].iter().map(|x| (format!("int({})", x), V::int(*x))).collect(),
+                    Ty::Bytes(c) => [0usize, 1, 16, 32, 48, 64].iter().filter(|n| c.map_or(true, |c| **n <= c)).map(|n| (format!("bytes({})", n), V::B(fill_bytes(*n, 5)))).collect(),
+                    Ty::Text(c) => [0usize, 1, 16, 64].iter().filter(|n| c.map_or(true, |c| **n <= c)).map(|n| (format!("text({})", n), V::t(&fill_text(*n, 5)))).collect(),
+                    Ty::TextTrunc(_) | Ty::TextSkip(_) | Ty::Icon => [0usize, 1, 16].iter().map(|n| (format!("text({})", n), V::t(&fill_text(*n, 5)))).collect(),
+                    _ => vec![],
+                }
+            };
+            let edge = |site: &TSite| -> Vec<(String, V)> {
+                let orig = treewalk::get(&s.wire, &site.path).unwrap();
+                let c = match &site.ty {
+                    Ty::Bytes(Some(c)) | Ty::BytesExact(c) | Ty::Text(Some(c)) | Ty::TextSkip(c) | Ty::TextTrunc(c) => *c,
+                    Ty::List(_, Some(c)) => *c,
+                    _ => return vec![],
+                };
+                probes(site, orig, true).into_iter().filter(|(w, _)| [c.saturating_sub(1), c, c + 1].iter().any(|n| w.ends_with(&format!("({})", n)))).collect()
+            };
+            for a in &sites {
+                let ea = edge(a);
+                if ea.is_empty() {
+                    continue;
+                }
+                for b in &sites {
+                    if b.path == a.path || b.path.starts_with(&a.path) || a.path.starts_with(&b.path) {
+                        continue;
+                    }
+                    for (wb, vb) in menu(b) {
+                        for (wa, va) in &ea {
+                            cases.push((
+                                si,
+                                Repl { seed: si, path: a.path.clone(), name: a.name.clone(), value: va.clone(), what: wa.clone() },
+                                Repl { seed: si, path: b.path.clone(), name: b.name.clone(), value: vb.clone(), what: wb.clone() },
+                            ));
+                        }
+                    }
+                }
+            }
+        }
+        let (pc, sr) = (&cases, &seeds);
+        sweep(ctx, "limits under every value of one other member", cases.len() as u64, "every bounded member of each full anchor at {capacity-1, capacity, capacity+1} x every other member x its menu (selectors 0..5, both booleans, every enumeration value, short strings)", move |idx, l| {
+            let (si, a, b) = &pc[idx as usize];
+            let s = &sr[*si];
+            let wire = treewalk::replaced(&treewalk::replaced(&s.wire, &a.path, a.value.clone()), &b.path, b.value.clone());
+            l.nontrivial += 1;
+            l.bump("limit in context");
+            let v = compare(P, &s.target, &wire);
+            if !v.ok {
+                l.fail(ctx, idx, v, || case_json(&s.target, &wire, json!({"seed": s.label, "members": [a.name, b.name], "values": [a.what, b.what]})));
+            }
+        });
+    }
     ctx.require_outcomes(&["reference: accepted", "reference: rejected"]);
     ctx.sample(json!({"seed": "MakeCredential@0x01:full", "member": "/user/id", "values": "bytes(0) .. bytes(128), bytes(129), bytes(1256), bytes(7000)", "oracle": "accepted and delivered whole iff <= 64 bytes, else 0x12"}));
     ctx.sample(json!({"seed": "GetAssertion@0x02:full", "member": "/allowList", "values": "list(0) .. list(18), list(21), list(64)", "oracle": "accepted iff <= 10 entries"}));
